@@ -1058,15 +1058,19 @@ func c17R13(p *core.Program, r *core.Report) {
 	// does the framework's pass pick up late registrations?
 	rereads := false
 	var passAt token.Pos
-	for _, f := range p.Funcs() {
-		if f.Body == nil || core.RelPkg(f.Pkg.PkgPath) != "pkg/gengo" {
+	for _, f0 := range p.Funcs() {
+		if f0.Body == nil || f0.Decl == nil || core.RelPkg(f0.Pkg.PkgPath) != "pkg/gengo" {
 			continue
 		}
+		f := flatten(p, f0) // loops in range form
 		info := f.Info()
 		ast.Inspect(f.Body, func(n ast.Node) bool {
 			switch x := n.(type) {
 			case *ast.RangeStmt:
-				if isRole(p, core.FieldOf(info, x.X), "ctx.callbacks") {
+				// a range evaluates its operand once: the pass runs over the list as it stood, whether the operand is the
+				// field itself or a local snapshot of it
+				seq, _ := core.Resolve(info, f.Body, x.X)
+				if isRole(p, core.FieldOf(info, seq), "ctx.callbacks") {
 					passAt = x.Pos()
 				}
 			case *ast.ForStmt:
